@@ -23,7 +23,7 @@ def run_case(case, R):
     ops = [tuple(o) for o in case["ops"]]
     names = [o[0] for o in ops]
     nreq = names.count("req")
-    R.nt(nreq >= 2 and any(n in ("cancel", "fin", "reset", "ans+event", "ans-part", "unsolicited", "close") or (n == "adv" and o[1] >= 30) for n, o in zip(names, ops)))
+    R.nt((nreq >= 2 or "stall" in names) and any(n in ("cancel", "fin", "reset", "ans+event", "ans-part", "unsolicited", "close") or (n == "adv" and o[1] >= 30) for n, o in zip(names, ops)))
     for n in set(names):
         R.cls("op:" + n)
 
@@ -34,6 +34,7 @@ def run_case(case, R):
         partial = []         # [conn, remaining wire bytes] of a response delivered in part
         events_sent = []
         events_got = []
+        stalled_from = {}    # conn index -> number of write calls when the peer stopped reading
         reqs = {}            # rid -> dict(task, issued, written_conn, done_at, outcome)
         callers = [None] * NCALLERS
         disconnects = []     # (time, conn index, cause)
@@ -79,9 +80,19 @@ def run_case(case, R):
                     return i
             return None
 
+        seen_writes = {}
+
         async def step_checks(where):
             await vtime.settle(loop)
             now = loop.time()
+            # a request written into a stalled transport never reaches the accessory; it counts as written when the controller wrote it
+            for c in w.acc.conns:
+                n = len(c.t.write_calls)
+                if (c.t.stalled or c.t.get_write_buffer_size()) and n > seen_writes.get(c.index, n if c.index not in stalled_from else stalled_from[c.index]):
+                    waiting = sorted((r["issued"], rid) for rid, r in reqs.items() if "written_at" not in r and not r["task"].done())
+                    for (_, rid), wc in zip(waiting, c.t.write_calls[seen_writes.get(c.index, stalled_from[c.index]):]):
+                        reqs[rid]["written_conn"], reqs[rid]["written_at"] = c.index, wc[0]
+                seen_writes[c.index] = n
             for rid, r in reqs.items():
                 t = r["task"]
                 if t.done() and r["done_at"] is None:
@@ -191,19 +202,35 @@ def run_case(case, R):
                         if conn is None:
                             raise Pruned
                         partial.clear()
+                        invisible = name == "fin" and conn.t.is_closing()      # the controller closed already and no longer reads: it cannot see a FIN
                         conn.close(name)
-                        disconnects.append((loop.time(), conn.index, name))
+                        if not invisible:
+                            disconnects.append((loop.time(), conn.index, name))
                     elif name == "close":
                         if conn is None:
                             raise Pruned
                         partial.clear()
                         closer = asyncio.ensure_future(p.close())
                         await vtime.settle(loop)
-                        disconnects.append((loop.time(), conn.index, "local-close"))
+                        if not conn.t.get_write_buffer_size():
+                            # (with unsent bytes in the transport asyncio reports the loss only once they are flushed; the statement
+                            # asks for promptness after a timeout, a cancellation or a drop, and the 30 s bound still applies)
+                            disconnects.append((loop.time(), conn.index, "local-close"))
                         if not closer.done():
                             R.fail("C08.request-hangs", f"pairing.close() did not return at once (op {k})", how="close-hangs")
                         elif closer.exception() is not None:
                             R.fail("C08.wrong-error", f"pairing.close() raised {closer.exception()!r}", exc=type(closer.exception()).__name__)
+                    elif name == "stall":
+                        # the accessory stops reading: whatever the controller writes from now on stays in its transport's write buffer
+                        if conn is None or conn.t.stalled or partial:
+                            raise Pruned
+                        conn.t.stalled = True
+                        stalled_from[conn.index] = len(conn.t.write_calls)
+                    elif name == "drain":
+                        c = next((c for c in w.acc.conns if c.t.stalled or c.t.get_write_buffer_size()), None)
+                        if c is None:
+                            raise Pruned
+                        c.t.drain()
                     elif name == "adv":
                         before = loop.time()
                         await asyncio.sleep(op[1])
@@ -250,7 +277,7 @@ def run_case(case, R):
 def run_pipelined(case, R):
     """The protocol object queues one future per request and resolves them in order (\"we can send many requests and dispatch
     the results in order\"): response i must reach future i, events in between go to the connection."""
-    from aiohomekit.controller.ip.connection import InsecureHomeKitProtocol
+    from aiohomekit.controller.ip.connection import HomeKitConnection, InsecureHomeKitProtocol
     from props.c07 import serialise
     kinds = case["kinds"]            # sequence of "H" (response) / "E" (event)
     n_http = kinds.count("H")
@@ -273,12 +300,18 @@ def run_pipelined(case, R):
             self._d = True
             log.append(("X", self.i, repr(e)))
 
-    class Conn:
+    class Conn(HomeKitConnection):
+        def __init__(self):
+            super().__init__(None, ["10.0.0.1"], 51826)
+
         def event_received(self, ev):
             log.append(("E", None, bytes(ev.body)))
 
         def _connection_lost(self, exc):
             pass
+    abandoned = {i for i in case.get("abandoned", []) if i < n_http}      # requests whose caller already gave up (cancelled / timed out)
+    if abandoned:
+        R.cls("pipelined:abandoned")
     stream = b""
     want = []
     h = 0
@@ -286,12 +319,15 @@ def run_pipelined(case, R):
         body = b"m%d" % j
         raw, _, _ = serialise({"kind": "HTTP" if k == "H" else "EVENT", "code": 200, "reason": "OK", "headers": [], "mode": "cl", "body": body})
         stream += raw
-        want.append((k, h if k == "H" else None, body))
+        if k != "H" or h not in abandoned:         # the answer to an abandoned request belongs to nobody else: it is dropped
+            want.append((k, h if k == "H" else None, body))
         h += k == "H"
 
     async def go():
         pr = InsecureHomeKitProtocol(Conn())
-        pr.result_cbs = [Fut(i) for i in range(n_http)]
+        pr.result_cbs = [Fut(i) for i in range(n_http + 2)]
+        for f in pr.result_cbs:
+            f._d = f.i in abandoned
         pos = 0
         for c in sorted({int(c) % len(stream) for c in case["cuts"]} - {0}) + [len(stream)]:
             pr.data_received(stream[pos:c])
@@ -303,7 +339,8 @@ def run_pipelined(case, R):
 
 @st.composite
 def pipelined_cases(draw):
-    return {"kinds": draw(st.lists(st.sampled_from(["H", "H", "E"]), min_size=2, max_size=6)), "cuts": draw(st.lists(st.integers(1, 2000), max_size=5))}
+    return {"kinds": draw(st.lists(st.sampled_from(["H", "H", "E"]), min_size=2, max_size=6)), "cuts": draw(st.lists(st.integers(1, 2000), max_size=5)),
+            "abandoned": draw(st.lists(st.integers(0, 4), max_size=2, unique=True))}
 
 
 ALPHABET_QUICK = [("req", 0), ("req", 1), ("close",), ("ans",), ("ans-split", 5), ("ans+event", 11), ("ans-part", 9), ("ans-rest",), ("event",), ("cancel", 0),
@@ -323,13 +360,25 @@ def enum_dfs(tier):
             yield {"ops": [list(o) for o in seq]}
 
 
+STALL_ALPHABET = [("req", 0), ("req", 1), ("fin",), ("reset",), ("adv", 1.0), ("adv", 31), ("drain",), ("cancel", 0), ("close",), ("ans",)]
+
+
+def enum_stalled(tier):
+    """The accessory stops reading (before or after a request), then every sequence over the alphabet."""
+    depth = 3 if tier == "quick" else 4
+    for prefix in ([("stall",)], [("req", 2), ("stall",)], [("stall",), ("req", 2)]):
+        for d in range(1, depth + 1):
+            for seq in itertools.product(STALL_ALPHABET, repeat=d):
+                yield {"ops": [list(o) for o in prefix + list(seq)], "lenient": True}
+
+
 @st.composite
 def histories(draw):
     n = draw(st.integers(3, 30))
     ops = []
     for _ in range(n):
         name = draw(st.sampled_from(["req", "req", "req", "ans", "ans", "ans-split", "ans+event", "ans-part", "ans-rest", "event", "cancel",
-                                     "adv", "fin", "reset", "unsolicited", "close"]))
+                                     "adv", "fin", "reset", "unsolicited", "close", "stall", "drain"]))
         if name in ("req", "cancel"):
             ops.append([name, draw(st.integers(0, NCALLERS - 1))])
         elif name in ("ans-split", "ans+event", "ans-part"):
@@ -345,13 +394,16 @@ SPEC = Property(
     P, "exploration",
     rule=("histories over {caller i issues a read with a unique id, accessory answers the oldest pending request whole / in pieces / with an "
           "event glued behind it / only partly (rest later), event, caller cancelled, advance 0.1/29.9/30/31 s, peer FIN, peer reset, "
-          "unsolicited response while idle, local close of the pairing} with up to 3 concurrent callers on an established secure session; bounded exhaustive DFS "
+          "unsolicited response while idle, local close of the pairing, accessory stops reading / reads again} with up to 3 concurrent callers on an established secure session; bounded exhaustive DFS "
           "(depth 4 over 15 events in quick, depth 5 over 21 events in thorough; histories with a disabled event are pruned and counted) "
           "and generated histories of 3..30 events. Non-trivial: >=2 requests and at least one of cancel, timeout, FIN/reset, partial "
           "response, event behind a response, unsolicited response."),
     layers=[
         Layer("dfs", run_case, enumerate=enum_dfs, exhaustive=True, space="all event sequences up to the depth bound that start with a request or a spontaneous accessory event", min_nontrivial=300),
         Layer("generated", run_case, strategy=histories, n={"quick": 3000, "thorough": 60000}, min_nontrivial=50),
+        Layer("stalled-writes", run_case, enumerate=enum_stalled, exhaustive=True,
+              space="the accessory stops reading (the controller's writes stay in its transport buffer, a close() then waits for the buffer as asyncio's does), "
+                    "then every sequence over 10 events to depth 3 (quick) / 4 (thorough)", min_nontrivial=100),
         Layer("pipelined-protocol", run_pipelined, strategy=pipelined_cases, n={"quick": 1000, "thorough": 20000}),
     ],
     assumptions=["event-loop-callback granularity on a zero-latency in-memory network",
